@@ -53,6 +53,66 @@ func Obj(m map[string]*Val) *Val {
 
 func (v *Val) IsNullish() bool { return v == nil || v.K == VNull || v.K == VBottom }
 
+// AllBottom: bottom, or a non-empty collection all of whose elements are.
+// "A disabled or empty mapped call may appear as null, an empty collection
+// or a collection of nulls": such a collection carries no information.
+func (v *Val) AllBottom() bool {
+	if v == nil {
+		return false
+	}
+	switch v.K {
+	case VBottom:
+		return true
+	case VArr:
+		if len(v.A) == 0 {
+			return false
+		}
+		for _, e := range v.A {
+			if !e.AllBottom() {
+				return false
+			}
+		}
+		return true
+	case VObj:
+		if len(v.O) == 0 {
+			return false
+		}
+		for _, e := range v.O {
+			if !e.AllBottom() {
+				return false
+			}
+		}
+		return true
+	}
+	return false
+}
+
+// NullLike: null, bottom, or a collection all of whose elements are.
+func (v *Val) NullLike() bool {
+	if v == nil {
+		return true
+	}
+	switch v.K {
+	case VNull, VBottom:
+		return true
+	case VArr:
+		for _, e := range v.A {
+			if !e.NullLike() {
+				return false
+			}
+		}
+		return true
+	case VObj:
+		for _, e := range v.O {
+			if !e.NullLike() {
+				return false
+			}
+		}
+		return true
+	}
+	return false
+}
+
 func (v *Val) Int() int64 {
 	if v == nil || v.K != VNum {
 		return 0
@@ -125,7 +185,9 @@ func (v *Val) AllDeps(out map[string]bool) {
 	if v == nil {
 		return
 	}
-	if v.K == VBottom {
+	if v.AllBottom() {
+		// (A non-empty collection whose every leaf is bottom is one of the
+		// renderings of bottom: its shape is not observable.)
 		// The value of a disabled producer is null whatever the calls it
 		// would have been derived from do, when the disabling is decided
 		// statically; whether it was decided statically is not visible here,
